@@ -452,6 +452,57 @@ def pre (mb : MbLen) : Nat → Bool → Bool → Bool → List Byte → Nat → 
         | some r' => pre mb fuel top isMap idx' r' (size + 1) zs
         | none => none)
 
+/-- The size pre-pass AS CODED since the nesting fix: `pre` plus the parameter `nest` = the `nesting` argument of
+    restore_internal_size (level of the container whose elements are being counted; the outermost container, counted
+    by restore_size, is level 1 and is not checked).  `if (nesting > MAX_SAVE_SVALUE_DEPTH) return 0;` stands at the
+    entry of restore_internal_size; `nest` is constant through the loop of one activation, so testing it at every
+    iteration is the same thing.  Each `(`-branch calls with `nesting + 1` (restore_size: with 2).
+    `pre` itself (above) is this function without the test — the code before the fix — and is kept as the proof
+    device of ProofTotal.lean: `preD_pre` shows that `preD` only adds refusals. -/
+def preD (mb : MbLen) : Nat → Nat → Bool → Bool → Bool → List Byte → Nat → List Nat → Option PreOut
+  | 0, _, _, _, _, _, _, _ => none
+  | _, _, _, _, _, [], _, _ => none
+  | fuel + 1, nest, top, isMap, idx, c :: r, size, zs =>
+    if !top && decide (nest > maxDepth) then none else
+    let delim : Byte := if isMap && !idx then 58 else 44
+    let idx' := if isMap then !idx else idx
+    let r := if top then (c :: r).drop (mbStep mb (c :: r)) else r
+    (
+      if c = 34 then
+        if top then
+          match skipStrMb mb (r.length + 1) r with
+          | .open_ => some ([], 0, [])
+          | .closed (d :: r') => if d = delim then preD mb fuel nest top isMap idx' r' (size + 1) zs else none
+          | .closed [] => none
+        else
+          match skipStr r with
+          | some (d :: r') => if d = delim then preD mb fuel nest top isMap idx' r' (size + 1) zs else none
+          | _ => none
+      else if c = 40 then
+        match r with
+        | k :: r1 =>
+          if k = 123 ∨ k = 91 ∨ k = 47 then
+            match preD mb fuel (nest + 1) false (k = 91) false r1 0 [] with
+            | some (d :: r', n, zs') =>
+              if d = delim then preD mb fuel nest top isMap idx' r' (size + 1) (zs ++ n :: zs') else none
+            | _ => none
+          else none
+        | [] => none
+      else if c = 93 then
+        match r with
+        | 41 :: r' => if isMap then some (r', size, zs) else none
+        | _ => none
+      else if c = 47 ∨ c = 125 then
+        match r with
+        | 41 :: r' => if !isMap then some (r', size, zs) else none
+        | _ => none
+      else if c = 58 ∨ c = 44 then
+        if c = delim then preD mb fuel nest top isMap idx' r (size + 1) zs else none
+      else
+        match afterDelim delim r with
+        | some r' => preD mb fuel nest top isMap idx' r' (size + 1) zs
+        | none => none)
+
 /-! ### value pass -/
 
 /-- msameval on the keys restore_mapping can meet in one bucket: numbers by value, floats by `==`, strings are
@@ -649,12 +700,14 @@ def rdMap (F : FloatOps α) : Nat → List Byte → List Nat → Pairs α → Re
 end
 
 /-- restore_array / restore_class / restore_mapping called from restore_svalue (`save_svalue_depth = 0`):
-    size pre-pass over the whole container, then the value pass.  `k` is the byte after `(`. -/
+    size pre-pass over the whole container (restore_size = nesting level 1), then the value pass.  `k` is the byte
+    after `(`.  The value pass recurses exactly where the pre-pass did, so its C recursion depth is bounded by the
+    same MAX_SAVE_SVALUE_DEPTH. -/
 def restoreContainer (F : FloatOps α) (mb : MbLen) (k : Byte) (s : List Byte) : Res (Value α) :=
   let fuel := s.length + 2
   if k = 123 ∨ k = 47 then
     let generic : RErr := if k = 123 then .array else .cls
-    match pre mb fuel true false false s 0 [] with
+    match preD mb fuel 1 true false false s 0 [] with
     | none => .err generic
     | some (_, n, zs) =>
       if k = 123 ∧ n > maxArray then .err .arraySize else
@@ -664,7 +717,7 @@ def restoreContainer (F : FloatOps α) (mb : MbLen) (k : Byte) (s : List Byte) :
       | .crash => .crash
       | .stuck => .stuck
   else
-    match pre mb fuel true true false s 0 [] with
+    match preD mb fuel 1 true true false s 0 [] with
     | none => .err .mapping
     | some (_, n, zs) =>
       if n = 0 then .ok (.map .nil)
@@ -849,6 +902,13 @@ def FS.step (fs : FS) : Call → FS
 
 def FS.run (fs : FS) (cs : List Call) : FS := cs.foldl FS.step fs
 
+/-- a crash INSIDE call `c`: of a `write` (stdio flushing its buffer block by block, a disk filling up) any prefix
+    `d'` of the data may have reached the temporary; the other calls are single system calls (fopen = open/creat,
+    rename, unlink): before or after, nothing in between (rename: the stated assumption) -/
+def FS.partialStep (fs : FS) : Call → List Byte → FS
+  | .write _, d' => { fs with tmp := fs.tmp.map (· ++ d') }
+  | _, _ => fs
+
 /-- The calls save_object makes when the call number `fail` (0-based; `none`: no failure) reports an error,
     together with its return value.  `chunks` = header line followed by the variable lines. -/
 def saveScript (chunks : List (List Byte)) (fail : Option Nat) : List Call × Nat :=
@@ -869,6 +929,22 @@ def saveScript (chunks : List (List Byte)) (fail : Option Nat) : List Call × Na
       -- rename failed: unlink
       (.fopenTmp :: (writes ++ [.fclose, .unlinkTmp]), 0)
     else (.fopenTmp :: (writes ++ [.fclose, .rename]), 1)
+
+/-- `save_object` as a whole, since the dry-run fix: `save_object_recurse(.., f = NULL)` runs `svalue_save_size` over
+    every non-static variable BEFORE the temporary is opened, so "nested too deep" is raised while nothing is open
+    (`none` = the LPC error: not one file-system call has been made); otherwise the call script over the header and
+    the variable lines. -/
+def saveObjectScript (F : FloatOps α) (prog : List Byte) (zeros : Bool) (vars : List (Var α)) (fail : Option Nat) :
+    Option (List Call × Nat) :=
+  if vars.any (fun v => !v.isStatic && (saveVariable F v.val == .tooDeep)) then none
+  else some (saveScript (headerLine prog :: saveLines F zeros vars) fail)
+
+/-- the file system after `save_object` and what it reported (`none`: LPC error) -/
+def saveObjectFS (F : FloatOps α) (prog : List Byte) (zeros : Bool) (vars : List (Var α)) (fail : Option Nat)
+    (fs : FS) : FS × Option Nat :=
+  match saveObjectScript F prog zeros vars fail with
+  | none => (fs, none)
+  | some (cs, ret) => (fs.run cs, some ret)
 
 /-- `snprintf(tmp_name, sizeof tmp_name, "%.250s.tmp", file)`: the temporary's name — prefix length and buffer size
     REGENERATED -/
